@@ -294,7 +294,9 @@ def job_detuned(j, seed):
     def run():
         ch = _mk_chopper(sc, dc, ratio, sign, begins, ends, beam, phase, fp)
         pf = sc.scalar(fp, unit='Hz')
-        return ch._source_phase_factor(pf), ch.time_offset_open(pulse_frequency=pf)
+        o_ = ch.time_offset_open(pulse_frequency=pf)
+        # rotations expanded per pulse period, read off the public result: (n + 1) * slits openings are reported
+        return C.R.lift(len(o_.values)) / nsl - 1, o_
 
     paths = C.explore(run, max_paths=64)
     want = max(int(N), 1)
